@@ -59,13 +59,9 @@ _FUNC = {}
 
 
 def _winit(seed):
-    import atexit
     sub.install_seams()
     sub.install_audit()
     _CTX[0] = Ctx()
-    atexit.register(_CTX[0].close)
-    import signal
-    signal.signal(signal.SIGTERM, lambda *a: sys.exit(0))
 
 
 def _wcall(job):
@@ -114,7 +110,12 @@ class Engine:
         job = [(func.__module__, func.__name__, it) for it in items]
         cs = chunksize or max(1, min(64, len(job) // (self.workers * 8) or 1))
         out = []
-        for st, r in self._pool().imap(_wcall, job, cs):
+        it = self._pool().imap(_wcall, job, cs)
+        for _ in range(len(job)):
+            try:
+                st, r = it.next(timeout=1800)
+            except mp.TimeoutError:
+                raise HarnessError("worker pool made no progress for 1800 s (lost worker?)")
             if st == "err":
                 raise HarnessError(r)
             out.append(r)
@@ -129,9 +130,28 @@ class Engine:
 
     def close(self):
         if self.pool is not None:
-            self.pool.terminate()
-            self.pool.join()
-            self.pool = None
+            # graceful shutdown (workers leave on the sentinel); terminate() only as a fallback, and never
+            # wait for it indefinitely - scratch directories are removed below either way
+            import threading
+            pool, self.pool = self.pool, None
+            pids = [p.pid for p in getattr(pool, "_pool", [])]
+
+            def _shut():
+                try:
+                    pool.close()
+                    pool.join()
+                except Exception:
+                    pass
+            t = threading.Thread(target=_shut, daemon=True)
+            t.start()
+            t.join(15)
+            if t.is_alive():
+                for pid in pids:
+                    try:
+                        os.kill(pid, 9)
+                    except OSError:
+                        pass
+                time.sleep(0.2)
         if self.local is not None:
             self.local.close()
         # workers killed by terminate() cannot clean up after themselves
